@@ -122,6 +122,7 @@ class Ctx:
         self.consts = []  # (name, sort)
         self.axioms = []  # global assertions (definitions of ground tables)
         self.obligations = []
+        self.covers = []  # (name, pc, ndecl): path conditions of reached exits (vacuity guard)
         self.trivial = []  # goals the term builder already reduced to `true`
         self.counter = itertools.count()
         self.notes = []
@@ -153,6 +154,20 @@ class Ctx:
         m.setdefault("path", "".join(st.path))
         full = name + ("#" + m["path"] if m["path"] else "")
         self.obligations.append(Obligation(full, st.pc, goal, len(self.consts), m))
+
+    def cover(self, name, st):
+        self.covers.append((name + "#" + "".join(st.path), st.pc, len(self.consts)))
+
+    def cover_query(self, cov):
+        out = [self.header()]
+        for n, s in self.consts:
+            out.append("(declare-const %s %s)" % (n, s))
+        for a in self.axioms:
+            out.append("(assert %s)" % a)
+        for h in cov[1]:
+            out.append("(assert %s)" % h)
+        out.append("(check-sat)")
+        return "\n".join(out)
 
     def header(self):
         lines = [PRELUDE]
